@@ -155,8 +155,32 @@ func runPoolSched(args []string) {
 		w.WriteByte('\n')
 		events++
 	}
+	// Work list: the TLC schedules (every stride-th), then a systematic pass that needs no schedule: for every case, API and
+	// K = 1..6, goroutine 1 starts its call and is left standing at the entry of its K-th scratch object while goroutine 2 runs
+	// the same kind of call from start to end; then goroutine 1 finishes.  (The events go through Trace_Pool like the others.)
+	type workItem struct {
+		si, synthK int
+	}
+	var work []workItem
 	for si := *offset; si < len(scheds); si += *stride {
-		sq := scheds[si]
+		work = append(work, workItem{si, 0})
+	}
+	if *ngor >= 2 {
+		for ci := range concCases {
+			for ai := range concAPIs {
+				for k := 1; k <= 6; k++ {
+					work = append(work, workItem{ci + len(concCases)*ai, k})
+				}
+			}
+		}
+	}
+	synthRuns := 0
+	for _, wi := range work {
+		si, synthK := wi.si, wi.synthK
+		var sq []int
+		if synthK == 0 {
+			sq = scheds[si]
+		}
 		cc := concCases[si%len(concCases)]
 		re, cerr := coregex.Compile(cc.pat)
 		if cerr != nil {
@@ -318,6 +342,34 @@ func runPoolSched(args []string) {
 			}
 			return release(g)
 		}
+		if synthK > 0 && !hang {
+			synthRuns++
+			// goroutine 1: through its pool operations to its first scratch entry, then on to the K-th
+			for parked[1] != nil && parked[1].point != "scr" && !finished[1] && !hang {
+				if !release(1) {
+					hang = true
+				}
+			}
+			for n := 1; n < synthK && parked[1] != nil && parked[1].point == "scr" && !hang; n++ {
+				if !release(1) {
+					hang = true
+				}
+			}
+			// goroutine 2 (and any further one) runs from start to end meanwhile
+			for g := 2; g <= *ngor && !hang; g++ {
+				for !finished[g] && !hang {
+					if parked[g] == nil {
+						if !waitFor(g) {
+							hang = true
+						}
+						continue
+					}
+					if !release(g) {
+						hang = true
+					}
+				}
+			}
+		}
 		for _, s := range sq {
 			if hang {
 				break
@@ -381,6 +433,7 @@ func runPoolSched(args []string) {
 	rep.Add(len(concCases), traces, calls, traces, "")
 	rep.Extra["events"] = events
 	rep.Extra["schedules_replayed"] = traces
+	rep.Extra["systematic_mid_search_runs"] = synthRuns
 	rep.Extra["schedules_generated"] = len(scheds)
 	if err := rep.Close(*report); err != nil {
 		fatal(err)
